@@ -1,6 +1,6 @@
 """Per-property configuration of the checks."""
 import glob, os
-import gens_core, gens_codec
+import gens_core, gens_codec, gens_text
 
 V = '/verif'
 
@@ -55,12 +55,23 @@ PROPS = {
                  'seeded PRNG state; every proper prefix (all of them up to 80 bytes, boundary + random ones beyond), arbitrary trailers and '
                  'a second message behind the first; a case is distinct by the hash of its operation list and non-trivial when a decode succeeds',
                  'AppendTo/TakeFrom of Timestamp, Duration, Value, Point, Points, TimeSeries, ArchiveInfo, Header'),
+    'C19': entry(gens_text.gen_c19, 300, 4000,
+                 'boundary numerals of every unit, all strings over the duration alphabet up to length 3 (thorough), malformed classes, '
+                 'day boundaries of every year 1970-2106, liberal forms accepted by time.Parse (one-digit hour, fractional seconds), '
+                 'retention lists, method names; distinct by operation list, non-trivial when some parse succeeds',
+                 'ParseDuration/Duration.String, ParseTimestamp/Timestamp.String (time.Parse/Format for the one fixed layout), '
+                 'ParseArchiveInfo(List)/String, AggregationMethodString/String, the CLI flag values', shrink=False),
+    'C07': entry(gens_text.gen_c07, 300, 4000,
+                 'archive lists valid and invalid in exactly one rule at its boundary (equal steps, non-dividing, equal/shorter retention, '
+                 'one point too few, zeros, 2^31 and 2^32 neighbours), methods 0..9, float32 xFilesFactor patterns incl. NaN/Inf/-0, through '
+                 'NewHeader, Header.TakeFrom, ParseArchiveInfoList, Create+Sync+Open and the CLI flags; non-trivial when something is accepted',
+                 'NewHeader, fillOffset, validate, Header.TakeFrom, ParseArchiveInfoList, Create/Open, cmd/flags.go', shrink=False),
 }
 
 
 def extra_nontrivial(res):
     for l in res['impl']:
-        if ' series ' in l or l.startswith('dec ok'):
+        if ' series ' in l or ' ok' in l or (l.startswith('enc ') and l != 'enc err'):
             return True
     return False
 
